@@ -8,8 +8,9 @@ hand spec on dyadic random + boundary inputs, and the step-rule decider run on t
 validation (V): a seedable variant of libtopology/tests/beautify.cpp (random graphs, libavoid routes turned into topology
 routes, ConstrainedFDLayout with ColaTopologyAddon, library assertions enabled as exceptions), result checked by the
 extracted verified checker (no segment through a foreign node, no node overlap, endpoints preserved, bends on corners
-turning round their node)."""
-import os, json
+turning round their node); explicit scene families (checks/c13lib.py): lattice pinch / lattice / resize scenes and the DRAG family
+(one TopologyConstraints instance kept alive over solves with changing desired positions: drag a node into an edge and back)."""
+import os, json, re
 from fractions import Fraction
 from vlib import common as C
 
@@ -199,6 +200,40 @@ def judge_phases(phases, rows):
     return None, []
 
 
+def drag_return_problems(sc, phases):
+    """extra oracle of the DRAG family (one TopologyConstraints instance, motion in ONE axis): whenever, after a step, every node rectangle is
+    back where it was before the DRAG op, every path must again be the path it was then (same (node, corner) sequence).  Sound because the
+    start state is strict (no path touches a foreign node), a taut path in a homotopy class is unique, and the configuration space of
+    non-overlapping rectangles moving along one axis is convex (no loop of node positions can change the class).  -> (phase index, problems, number of states compared)"""
+    names = [p['name'] for p in phases]
+    nret = 0
+    for oi, op in enumerate(sc['ops']):
+        if op[0] != 'DRAG':
+            continue
+        prev = 'before' if oi == 0 else 'op%d' % oi
+        if prev not in names:
+            continue
+        p0 = phases[names.index(prev)]
+        for k, pa in enumerate(phases):
+            if not (pa['name'] == 'op%d' % (oi + 1) or pa['name'].startswith('op%d.s' % (oi + 1))):
+                continue
+            if len(pa['nodes']) != len(p0['nodes']) or len(pa['paths']) != len(p0['paths']):
+                continue
+            if any(abs(a - b) > 1e-6 for r, t in zip(p0['nodes'], pa['nodes']) for a, b in zip(r, t)):
+                continue
+            bad = []
+            nret += 1
+            for q0, q1 in zip(p0['paths'], pa['paths']):
+                if [(x[0], x[1]) for x in q0['points']] != [(x[0], x[1]) for x in q1['points']]:
+                    bad.append({'kind': 'every node is back where it was before the drag session, but the path is not: %d bend(s) before, %d now '
+                                        '(a bend made during the session did not straighten again / a bend was lost)' % (len(q0['points']) - 2, len(q1['points']) - 2),
+                                'code': 5, 'edge': q1['edge'], 'src': q1['src'], 'dst': q1['dst'], 'points_node_kind_x_y': q1['points'],
+                                'path_before_the_session': q0['points']})
+            if bad:
+                return k, bad, nret
+    return None, [], nret
+
+
 def assert_fingerprint(exc):
     """EXC <expr> | <file>:<line> | <function> | op<k>  ->  assert:<file>:<expr>"""
     f = [x.strip() for x in exc[4:].split('|')]
@@ -213,12 +248,12 @@ def assert_fingerprint(exc):
 
 def run_scene_families(res, tier, rng, exe, spec_exe):
     from checks import c13lib as L
-    nq = (400, 300, 400) if tier == 'quick' else (3000, 2000, 3000)
+    nq = (400, 300, 400, 300) if tier == 'quick' else (3000, 2000, 3000, 2500)
     scenes = []
     if os.path.exists(SCENE_CORPUS):
         scenes += [dict(sc, corpus=True) for sc in L.parse_scripts(open(SCENE_CORPUS).read())]
     scenes += L.gen_scenes(rng, *nq)
-    st = {'scenes': len(scenes), 'by_family': {}, 'start_invalid': 0, 'checked_states': 0, 'ops': {'MOVE0': 0, 'MOVE1': 0, 'RESIZE': 0, 'LAYOUT': 0},
+    st = {'scenes': len(scenes), 'by_family': {}, 'start_invalid': 0, 'checked_states': 0, 'ops': {'MOVE0': 0, 'MOVE1': 0, 'RESIZE': 0, 'LAYOUT': 0, 'DRAG0': 0, 'DRAG1': 0}, 'drag_steps': 0, 'drag_returns_checked': 0,
           'bends_created_or_removed': 0, 'assertions': {}, 'ndebug_runs': 0, 'known': {}, 'wall_s': 0.0}
     viol = 0
     inp = ''.join(L.script(sc) for sc in scenes)
@@ -242,9 +277,16 @@ def run_scene_families(res, tier, rng, exe, spec_exe):
             continue
         fs['scenes'] += 1
         for op in sc['ops']:
-            st['ops'][op[0] + (str(op[1]) if op[0] == 'MOVE' else '')] += 1
+            st['ops'][op[0] + (str(op[1]) if op[0] in ('MOVE', 'DRAG') else '')] += 1
+            if op[0] == 'DRAG':
+                st['drag_steps'] += len(op[2])
         st['checked_states'] += len(phases) - 1
         k, bad = judge_phases(phases, rw)
+        if any(op[0] == 'DRAG' for op in sc['ops']):
+            kd, badd, nret = drag_return_problems(sc, phases)
+            st['drag_returns_checked'] += nret
+            if kd is not None and (k is None or kd < k):
+                k, bad = kd, badd
         if status != 'ok' and not exc:
             exc = 'EXC harness child ended with ' + status
         if k is None and not exc:
@@ -266,6 +308,11 @@ def run_scene_families(res, tier, rng, exe, spec_exe):
             for t, rw in zip(order, rows2 or []):
                 ph2, exc2, status2 = got2[t]
                 k2, bad2 = judge_phases(ph2, rw) if ph2 else (None, [])
+                sc_t = [f[0] for f in failing if f[0]['tag'] == t][0]
+                if ph2 and any(op[0] == 'DRAG' for op in sc_t['ops']):
+                    kd, badd, _ = drag_return_problems(sc_t, ph2)
+                    if kd is not None and (k2 is None or kd < k2):
+                        k2, bad2 = kd, badd
                 nd[t] = {'status': status2, 'exception': exc2, 'phases': len(ph2), 'rejected_phase': ph2[k2]['name'] if k2 else None, 'problems': bad2[:4],
                          'rejected_state': {'nodes_x0y0x1y1': ph2[k2]['nodes'], 'paths': ph2[k2]['paths']} if k2 else None}
                 st['ndebug_runs'] += 1
@@ -308,8 +355,9 @@ def run_scene_families(res, tier, rng, exe, spec_exe):
     st['residual_unclassified'] = len(residual)
     st['residual_cap'] = RESID_MAX
     st['residual_scenes'] = [o['scene_script'] for o, f in residual][:6]
+    GENERIC = ('drag', 'drag2', 'corpus-drag')     # generic coordinates: never eligible for the lattice residual class
     for obj, f in residual:
-        if len(residual) <= RESID_MAX and os.environ.get('C13_NO_RESIDUAL') is None:
+        if len(residual) <= RESID_MAX and os.environ.get('C13_NO_RESIDUAL') is None and obj['family'] not in GENERIC:
             if res.violation(obj, fingerprint='lattice_degenerate_residual'):
                 viol += 1
         else:
@@ -358,6 +406,47 @@ def through_pairs(state):
     return out
 
 
+def end_node_shadow(c0, bad_state, E, N, dim):
+    """classifier predicate of rare_segment_through_node:end_node_shadow.  c0: the state in which the TopologyConstraints instance was
+    constructed; E: an end node of an edge whose end segment (E.CENTRE -> next point) passes through node N in bad_state; dim: 0 = nodes
+    move in x (scan lines at the y of node sides), 1 = the transpose.  NodeEvent::createStraightConstraints (topology_constraints_
+    constructor.cpp:262-291) makes a StraightConstraint between N and a segment only at the two scan positions N.min / N.max (other axis) and
+    only if the segment is open there and not hidden behind N's neighbour in the open-node list (`p < leftLimit && pos inside the
+    neighbour`); the end segment of an edge is attached to E's CENTRE and has no constraint against E itself.  True iff for EVERY edge with
+    an end segment E.CENTRE -> P through N in bad_state, at both scan positions of N the end segment of that edge at E in c0 was either not
+    open or hidden behind E (scan position strictly inside E's range, intersection point and N's centre strictly on opposite sides of E's
+    centre): N never got a constraint against the segment that later swung round E's centre across it."""
+    d, sa = (0, 1) if dim == 0 else (1, 0)                  # index of the moving coordinate / of the scan coordinate in [x0, y0, x1, y1]
+    found = False
+    for pb, p0 in zip(bad_state['paths'], c0['paths']):
+        pts = pb['points']
+        segs = []
+        if pts[0][0] == E and pts[0][1] == 4:
+            segs.append((pts[0], pts[1], 0))
+        if pts[-1][0] == E and pts[-1][1] == 4:
+            segs.append((pts[-1], pts[-2], -1))
+        for a, b, side in segs:
+            rn = bad_state['nodes_x0y0x1y1'][N]
+            from checks import c13lib as L
+            if L.seg_clear_open((a[2], a[3]), (b[2], b[3]), (rn[0] + 1e-6, rn[2] - 1e-6, rn[1] + 1e-6, rn[3] - 1e-6)):
+                continue
+            found = True
+            q = p0['points']
+            u, v = (q[0], q[1]) if side == 0 else (q[-1], q[-2])
+            if u[0] != E or u[1] != 4:
+                return False
+            r_n, r_e = c0['nodes'][N], c0['nodes'][E]
+            ec, nc = (r_e[d] + r_e[d + 2]) / 2.0, (r_n[d] + r_n[d + 2]) / 2.0
+            us, vs, ud, vd = u[2 + sa], v[2 + sa], u[2 + d], v[2 + d]
+            for pos in (r_n[sa], r_n[sa + 2]):
+                if us == vs or pos < min(us, vs) or pos > max(us, vs):
+                    continue                                  # no segment event / segment not open at this scan position
+                pint = ud + (vd - ud) * (pos - us) / (vs - us)
+                if not (r_e[sa] < pos < r_e[sa + 2] and (pint - ec) * (nc - ec) < 0):
+                    return False
+    return found
+
+
 def rects_touch(r, s, e=1e-2):      # resize leaves gaps of about 1e-3 (slivers of width 1e-4) between nodes it pushed apart
     return not (r[2] < s[0] - e or s[2] < r[0] - e or r[3] < s[1] - e or s[3] < r[1] - e)
 
@@ -397,6 +486,14 @@ def classify_scene_failure(sc, phases, exc, k, bad, ndr):
                 ok = False
         if ok:
             return 'rare_segment_through_node:end_node_neighbour'
+        # (a'') the same root cause without contact: the node lies in the SHADOW of the end node.  Evaluated on the state in which the
+        #       TopologyConstraints instance of the failing operation was constructed (MOVE / DRAG: the state before the operation)
+        if op[0] in ('MOVE', 'DRAG') and prs:
+            c0n = 'before' if opi == 1 else 'op%d' % (opi - 1)
+            if c0n in names:
+                c0 = phases[names.index(c0n)]
+                if all(any(end_node_shadow(c0, stt, q[0], i, op[1]) for q in (a, b) if q[1] == 4) for a, b, i in prs):
+                    return 'rare_segment_through_node:end_node_shadow'
         return None
     # (a') the library's end-of-solve() intersection check fired, but every state the same scene reaches in the NDEBUG build (after every
     #      operation and every layout iteration) satisfies the verified checker: transient (rate-limited by the caller)
@@ -405,10 +502,19 @@ def classify_scene_failure(sc, phases, exc, k, bad, ndr):
         return 'rare_segment_through_node:transient'
     # (b) state before the failing op: phase `op<opi-1>` (or `before`)
     prev = 'before' if opi == 1 else 'op%d' % (opi - 1)
+    if op[0] == 'DRAG':
+        # a DRAG op is a sequence of solve loops on one TopologyConstraints instance: the state before the failing STEP
+        step = None
+        if k and '.s' in phases[k]['name']:
+            step = int(phases[k]['name'].split('.s')[1])
+        elif not k and exc and re.search(r'\| step(\d+) \|', exc):
+            step = int(re.search(r'\| step(\d+) \|', exc).group(1))
+        if step and step > 1:
+            prev = 'op%d.s%d' % (opi, step - 1)
     if prev not in names:
         return None
     cs = corridor_segments(phases[names.index(prev)])
-    if op[0] == 'MOVE':
+    if op[0] in ('MOVE', 'DRAG'):
         cs = [c for c in cs if op[1] in c[1]]
     if not cs:
         return None
@@ -671,6 +777,13 @@ META = {
                   'under random symmetries of the square, driven through ColaTopologyAddon::moveTo, ::handleResizes and ConstrainedFDLayout::run (PreIteration locks '
                   'and cola::Resize), in an assertion build (an assertion of the library is a violation with fingerprint assert:<file>:<expr>) and, for the failing '
                   'scenes, an NDEBUG build whose states go through the same extracted checker; known-finding classifiers are predicates on the state before the '
-                  'failing operation / on the violated NDEBUG state, plus one rate-limited residual class (2 + scenes/300).',
+                  'failing operation / on the violated NDEBUG state, plus one rate-limited residual class (2 + scenes/300). '
+                  'Drag family (scene op DRAG): ONE topology::TopologyConstraints instance kept alive over several solve loops with changing desired positions '
+                  '(usage of libtopology/tests/simple_bend.cpp; every library caller builds a fresh instance per solve, where motion is linear): a node is dragged '
+                  'into a straight edge / across two edges and back, lattice-aligned and generic coordinates, both axes; the checker judges the state after every '
+                  'step, and whenever every node is back where the session started the paths must be the paths of the start (sound: strict start state, unique '
+                  'taut path per homotopy class, one-axis motion of non-overlapping boxes has a convex configuration space). Failures of the generic-coordinate '
+                  'drag scenes are never put in the residual class; they found rare_segment_through_node:end_node_shadow (classifier end_node_shadow: the node '
+                  'crossed by an END segment was hidden behind that segment\'s own end node at both of its scan positions when the instance was constructed).',
     'technique': 'Coq proof over cpp2v-regenerated Gallina + correspondence on dyadic/boundary inputs + verified checker on real layout runs',
 }
